@@ -127,18 +127,40 @@ Definition mk_case (sv dv : list node) (mode : N) (name : bytes) : option c16cas
        | None => None
        end.
 
-(* listing of a final state: candidates = old paths + landing target + source paths below it *)
-Definition listing (k : c16case) (fs' : dfs) : sx :=
-  let cands := sort_paths (map fst (k_dst0 k) ++
-                           map (joinL (k_L k)) ([] :: map (fun e => st_path (fst e)) (walk_root (src_view (k_src k))))) in
+(* listing of a final state.  [rs] = the copies made, one per top-level source (several with
+   wildcards: their landing targets are different top-level names), each with the state it left
+   below its landing target; candidates = old paths + landing targets + source paths below them *)
+Definition case_cands (k : c16case) : list bytes :=
+  map (joinL (k_L k)) ([] :: map (fun e => st_path (fst e)) (walk_root (src_view (k_src k)))).
+
+Fixpoint final_at (rs : list (c16case * dfs)) (dst0 : list (bytes * entry)) (f : bytes) : option entry :=
+  match rs with
+  | [] => assoc_b f dst0
+  | (k, fs') :: r => match relL (k_L k) f with Some q => fs' q | None => final_at r dst0 f end
+  end.
+
+Definition listing (dst0 : list (bytes * entry)) (rs : list (c16case * dfs)) : sx :=
+  let cands := sort_paths (map fst dst0 ++ flat_map (fun r => case_cands (fst r)) rs) in
   SL (flat_map (fun f =>
         match f with
         | [] => []
-        | _ => match (match relL (k_L k) f with Some q => fs' q | None => assoc_b f (k_dst0 k) end) with
+        | _ => match final_at rs dst0 f with
                | Some e => [enc_dentry f e]
                | None => []
                end
         end) cands).
+
+(* the copies one after the other (matches in lexical order), stopping at the first error *)
+Fixpoint run_all (f : c16case -> dfs * option cerr) (ks : list c16case) : list (c16case * dfs) * option cerr :=
+  match ks with
+  | [] => ([], None)
+  | k :: r =>
+    let res := f k in
+    match snd res with
+    | Some e => ([], Some e)
+    | None => let '(rs, e) := run_all f r in ((k, fst res) :: rs, e)
+    end
+  end.
 
 (* ---- the specification: what the destination must look like, from the verdict V alone ---- *)
 Definition root_item (rootst : stat) : litem := {| l_st := set_path rootst []; l_ct := []; l_sel := true |}.
@@ -163,14 +185,20 @@ Definition spec_run (V : bytes -> bool) (k : c16case) : dfs * option cerr :=
      conflict_of it (k_fs0 k []))
   end.
 
-Definition outcome (k : c16case) (r : dfs * option cerr) : sx :=
-  SL [SN (err_class (snd r)); match snd r with None => listing k (fst r) | Some _ => SL [] end].
+Definition outcome (dst0 : list (bytes * entry)) (r : list (c16case * dfs) * option cerr) : sx :=
+  SL [SN (err_class (snd r)); match snd r with None => listing dst0 (fst r) | Some _ => SL [] end].
 
 Definition model_run (pm : bytes -> bytes -> bool) (c : cfg) (k : c16case) : dfs * option cerr :=
   let '(fs', _, e) := copy_sel pm c (k_src k) (k_fs0 k) in (fs', e).
 
-Definition any_late_shadow (pm : bytes -> bytes -> bool) (c : cfg) (k : c16case) : bool :=
-  negb (forallb (fun e => nls_path pm c (st_path (fst e))) (walk_root (src_view (k_src k)))).
+Definition any_late_shadow (pm : bytes -> bytes -> bool) (c : cfg) (ks : list c16case) : bool :=
+  existsb (fun k => negb (forallb (fun e => nls_path pm c (st_path (fst e))) (walk_root (src_view (k_src k))))) ks.
+
+(* mode 0: the whole source root (CopyDirContents); 1: one named top-level entry; 2: wildcard "*":
+   every top-level entry, each a top-level source of its own *)
+Definition mk_cases (sv dv : list node) (mode : N) (name : bytes) : option (list c16case) :=
+  if N.eqb mode 2 then omap (fun n => mk_case sv dv 1 (node_name n)) sv
+  else match mk_case sv dv mode name with Some k => Some [k] | None => None end.
 
 (* known finding: copier.copy lstats the destination path of EVERY visited source entry; below an
    unselected source directory whose name is taken by a non-directory in the destination that
@@ -184,9 +212,10 @@ Definition run_1601 (input impl : sx) : sx :=
     | Some sview, Some dview, Some incr_, Some excr =>
       if negb (wf_tree sview && wf_tree dview && view_sorted sview && view_sorted dview
                && forallb xattrs_ok sview && forallb xattrs_ok dview) then v_malformed else
-      match mk_case sview dview mode name with
+      match mk_cases sview dview mode name with
       | None => v_malformed
-      | Some k =>
+      | Some ks =>
+        let dst0 := map (fun e => (st_path (fst e), e)) (walk_root dview) in
         match impl with
         | SL [SN 65535] =>
           match mk_cfg incr_ excr with
@@ -201,27 +230,27 @@ Definition run_1601 (input impl : sx) : sx :=
             | None => v_diff (SL [SN 65535])
             | Some c =>
               let impl' := SL [SN 0; iinc; iexc; SL [SN cls; if N.eqb cls 0 then csnap else SL []]] in
-              let mr := model_run pm c k in
-              let model := SL [SN 0; enc_side (c_inc c); enc_side (c_exc c); outcome k mr] in
+              let mr := run_all (model_run pm c) ks in
+              let model := SL [SN 0; enc_side (c_inc c); enc_side (c_exc c); outcome dst0 mr] in
               (* the specification: success iff no materialised entry meets the wrong type; on
                  success the destination is exactly what spec_ent says (error classes are not
                  part of the specification) *)
-              let spec_ok (r : dfs * option cerr) : bool :=
+              let spec_ok (r : list (c16case * dfs) * option cerr) : bool :=
                 match snd r with
-                | None => N.eqb cls 0 && sx_eqb (listing k (fst r)) csnap
-                | Some _ => negb (N.eqb cls 0)
+                | None => N.eqb cls 0 && sx_eqb (listing dst0 (fst r)) csnap
+                | Some _ => N.eqb cls 1 || N.eqb cls 2 || N.eqb cls 3 || N.eqb cls 4
                 end in
-              let r_naive := spec_run (keep_naive pm c) k in
+              let r_naive := run_all (spec_run (keep_naive pm c)) ks in
               if spec_ok r_naive then verdict model impl' true (SL [])
               else
-                let r_incr := spec_run (keep_incr pm c) k in
+                let r_incr := run_all (spec_run (keep_incr pm c)) ks in
                 let s :=
-                  if any_late_shadow pm c k && spec_ok r_incr then [sig s_late_shadow]
+                  if any_late_shadow pm c ks && spec_ok r_incr then [sig s_late_shadow]
                   else if match snd mr with Some ENotDir => true | _ => false end && sx_eqb model impl'
                           && match snd r_incr with None => true | Some _ => false end
                   then [sig s_stat_unselected]
                   else [] in
-                verdict model impl' false (SL (s ++ [outcome k r_naive]))
+                verdict model impl' false (SL (s ++ [outcome dst0 r_naive]))
             end
           | _, _ => v_malformed
           end
